@@ -1,6 +1,7 @@
 (* C17 — non-vacuity: concrete instances of the hypotheses of the theorems. *)
 From GL Require Import Common.Bytes Dbg.Lines Dbg.LinesFacts Dbg.Layout Dbg.LayoutFacts
-  Dbg.Scope Dbg.ScopeFacts Dbg.DbgLocals Dbg.DbgLocalsFacts.
+  Dbg.Scope Dbg.ScopeFacts Dbg.DbgLocals Dbg.DbgLocalsFacts Dbg.ScanLines.
+From GL Require Front.Lexer.
 
 (* local x = [[a<CR><LF>b]] .. n   with a comment line and a blank CRLF line before `..` *)
 Definition ex_toks : list token :=
@@ -34,6 +35,30 @@ Proof. vm_compute. repeat split; intro H; discriminate H. Qed.
 
 Example ex_span_lines : span_lines (render ex_toks ex_lay) [(0,5);(6,1);(8,1);(11,8);(27,2);(30,1)] = [(1,1);(1,1);(1,1);(2,3);(5,5);(6,6)].
 Proof. reflexivity. Qed.
+
+(* the scanner on  local x --[==<CR><LF>= 1   against   local x = 1  : the cut-short opener
+   "--[==" ended by CRLF is a line comment, one newline sequence, and moves `=` and `1` by one *)
+Definition sc_toks : list token := [[108;111;99;97;108]; [120]; [61]; [49]].
+Definition sc_lay : layout := [[]; [32]; [32]; [32]].
+Definition sc_lay' : layout := [[]; [32]; [32;45;45;91;61;61;13;10]; [32]].
+
+Example sc_scans : exists ts, scans_to sc_toks sc_lay ts /\ map (tline ts) [0;1;2;3]%nat = [1;1;1;1].
+Proof.
+  eexists. split; [split; [vm_compute; reflexivity|split; [reflexivity|]]|reflexivity].
+  intros j Hj. do 4 (destruct j as [|j]; [reflexivity|]). simpl in Hj. lia.
+Qed.
+Example sc_scans' : exists ts, scans_to sc_toks sc_lay' ts /\ map (tline ts) [0;1;2;3]%nat = [1;1;2;2].
+Proof.
+  eexists. split; [split; [vm_compute; reflexivity|split; [reflexivity|]]|reflexivity].
+  intros j Hj. do 4 (destruct j as [|j]; [reflexivity|]). simpl in Hj. lia.
+Qed.
+Example sc_hyps : Forall tok_ok sc_toks /\ same_except sc_lay sc_lay' 2 /\
+  nl_count (nth 2 sc_lay' []) = nl_count (nth 2 sc_lay []) + 1 /\
+  is_bytes (render sc_toks sc_lay) = true /\ is_bytes (render sc_toks sc_lay') = true.
+Proof.
+  split; [repeat constructor; simpl; congruence|]. split; [|repeat split; reflexivity].
+  split; [reflexivity|]. intros j Hj. do 4 (destruct j as [|j]; [try reflexivity; lia|]). destruct j; reflexivity.
+Qed.
 
 (* statement entries of:  local x = [[..]] .. n  (one simple statement) inside nothing *)
 Example ex_innermost : innermost [(0, 5); (3, 4)] 4 None = Some (3, 4).
